@@ -379,6 +379,8 @@ def run(ck):
     ck.need("lambda_in_caller_local_judgements", 20)
     ck.need("function_behind_plain_closure_decorator_judgements", 20)
     ck.need("self_referential_nested_function_judgements", 20)
+    ck.need("session_blocks_with_a_rejected_code_equal_twin", 100)
+    ck.need("closure_held_100_frames_up_judgements", 20)
     ck.need("files_stdlib", 1000, "fewer than 1000 files under the stdlib root")
     ck.need("files_site-packages", 1000, "fewer than 1000 files under site-packages")
     ck.need("loaded_functions", 1000)
